@@ -1,51 +1,20 @@
 import MosnVerif.Model.Downstream
 /-!
-# `terminate during the back-off` (proxy9) — extension of the shared downstream machine
+# The back-off of `doRetry` (proxy9 → proxy10)
 
-`downStream.doRetry` sleeps ~10 ms before it creates the next upstream attempt.  While the worker sleeps there the response
-slot `upstreamResponseReceived` is FREE (setupRetry swung it back) and no response headers are stored when the attempt was
-given up because of a reset / per-try timeout: a stream filter's asynchronous `handler.TerminateStream(code)` is accepted —
-it stores the local reply and sets `directResponse`.  The labels of `Model/Downstream.lean` deliver `TerminateStream` only
-to a PARKED worker (`terminateG`); this file adds the delivery during the back-off and the Retry pass that follows it:
-
-* `terminateB`  — the regenerated step program of `TerminateStream` (`Gen.ProxyTerminate`, the same operations `termOps`)
-  applied while `backoff s` (worker inside `doRetry`'s sleep);
-* `doRetryB`    — `doRetry` with the regenerated guard `Gen.ProxyPhase.retrySkipsOnDirect` (`if s.directResponse { return }`
-  after the sleep, before a host is chosen): with the guard and a pending local reply nothing is done, otherwise `doRetry`;
-* `workB`       — `work` with `doRetryB` in the Retry phase (every other phase: `work`).
-
-On every state of the machine that satisfies the invariant `direct` is false in the Retry phase (K7), so `workB = work`
-there (`Lemmas/Downstream/Backoff9.lean`: `workB_eq_work`): the extension only matters after `terminateB`.
+proxy9 modelled `terminate during the back-off` as an EXTENSION outside the label type (`terminateB`, `doRetryB`, `workB`).
+proxy10 moved it into the machine proper (`Model/Downstream.lean`): the back-off sleep is the state `backoff` (phase `Retry`,
+worker not yet woken), every label may fire during it — the asynchronous `TerminateStream` (`asleep`), a late frame of the
+given-up attempt, the global timer callback, the client's departure, the connection close, hosts removed, pool failures
+armed — and the label `work` in that state is the wake-up: the regenerated `doRetry` (`Gen.ProxyBackoff.doRetry`) with the
+guards it re-checks after the sleep.  What stays here is the classification of trace events used by the theorems about it.
 -/
 namespace MosnVerif.Model.Downstream
-open MosnVerif.Gen.ProxyPhase MosnVerif.Gen.ProxyReason
 
 /-- an upstream attempt event of the trace (`ConnectionPool.NewStream` admitted / refused) -/
 def attemptEv : Ev → Bool
   | .un _ => true
   | .uf _ _ => true
   | _ => false
-
-/-- `TerminateStream(code)` on a handler of this request, called by another goroutine while the worker sleeps in
-`doRetry`'s back-off -/
-def terminateB (c : Cfg) (s : S) (code : Nat) : S :=
-  if !backoff s then s else (Gen.ProxyTerminate.terminateStream (termOps c c.gen code) id s).1
-
-/-- `downStream.doRetry()` including its test for a pending local reply after the sleep (regenerated guard) -/
-def doRetryB (c : Cfg) (s : S) : S :=
-  if Gen.ProxyPhase.retrySkipsOnDirect && s.direct then s else doRetry c s
-
-/-- the label `work` with `doRetryB` -/
-def workB (c : Cfg) (s : S) : S :=
-  if s.running && s.phase == .Retry then finishPhase c (doRetryB c s) else work c s
-
-/-- the worker runs (with `workB`) until it blocks or returns -/
-def settleB (c : Cfg) : Nat → S → S
-  | 0, s => s
-  | n + 1, s =>
-    if !s.running then s
-    else if s.phase == .WaitNotify && !s.notify then s
-    else if bodyWait s then s
-    else settleB c n (workB c s)
 
 end MosnVerif.Model.Downstream
